@@ -191,8 +191,207 @@ func boolRep(r *rand.Rand, b bool) rep {
 
 // ---- rounds ----
 
+// ---- handle configurations ----
+
+// A view is one *sqlgen.DB through which callers reach an engine: the handle
+// made by NewDB ("base") or a handle derived from it with WithShardLimit /
+// WithDynamicLimit, with or without WithPanicOnNoIndex. All views of one engine
+// come from one NewDB value, are used in one batching context and see the same
+// rows; a call's reference is the same call through the same view alone.
+type view struct {
+	db   *sqlgen.DB
+	kind string // base | shard | dyn-strict | dyn-audit | shard+dyn-audit
+	// limit: the key-value pairs every filter that goes through this view must
+	// carry (value-identical), or the call is refused before any SQL is sent
+	limit sqlgen.Filter
+	desc  string
+	pnoi  bool // WithPanicOnNoIndex is in force on this handle
+}
+
+func dynLimit(g int64, strict bool) sqlgen.DynamicLimit {
+	return sqlgen.DynamicLimit{
+		GetLimitFilter:        func(ctx context.Context, table string) sqlgen.Filter { return sqlgen.Filter{"grp": g} },
+		ShouldContinueOnError: func(err error, table string) bool { return !strict },
+	}
+}
+
+// buildViews derives the round's handles from root. Both tables have an int64
+// column grp with domain 0..2, which serves as the shard column.
+func buildViews(r *rand.Rand, root *sqlgen.DB) ([]*view, error) {
+	views := []*view{{db: root, kind: "base", desc: "base"}}
+	pnoiMode := r.Intn(8) // 0: on the NewDB handle before deriving (inherited by every view); 1: on one handle after deriving
+	if pnoiMode == 0 {
+		if _, err := root.WithPanicOnNoIndex(); err != nil {
+			return nil, err
+		}
+	}
+	if r.Intn(3) == 0 {
+		for k, n := 0, 1+r.Intn(3); k < n; k++ {
+			g, g2 := int64(r.Intn(3)), int64(r.Intn(3))
+			var v *view
+			var db *sqlgen.DB
+			var err error
+			switch x := r.Intn(10); {
+			case x < 6:
+				db, err = root.WithShardLimit(sqlgen.Filter{"grp": g})
+				v = &view{kind: "shard", limit: sqlgen.Filter{"grp": g}, desc: fmt.Sprintf("WithShardLimit(grp=%d)", g)}
+			case x < 7:
+				db, err = root.WithDynamicLimit(dynLimit(g, true))
+				v = &view{kind: "dyn-strict", limit: sqlgen.Filter{"grp": g}, desc: fmt.Sprintf("WithDynamicLimit(grp=%d, refuse)", g)}
+			case x < 8:
+				db, err = root.WithDynamicLimit(dynLimit(g, false))
+				v = &view{kind: "dyn-audit", desc: fmt.Sprintf("WithDynamicLimit(grp=%d, continue)", g)}
+			default:
+				v = &view{kind: "shard+dyn-audit", limit: sqlgen.Filter{"grp": g}, desc: fmt.Sprintf("WithShardLimit(grp=%d)+WithDynamicLimit(grp=%d, continue)", g, g2)}
+				if r.Intn(2) == 0 {
+					if db, err = root.WithShardLimit(sqlgen.Filter{"grp": g}); err == nil {
+						db, err = db.WithDynamicLimit(dynLimit(g2, false))
+					}
+				} else {
+					if db, err = root.WithDynamicLimit(dynLimit(g2, false)); err == nil {
+						db, err = db.WithShardLimit(sqlgen.Filter{"grp": g})
+					}
+				}
+			}
+			if err != nil {
+				return nil, err
+			}
+			v.db = db
+			views = append(views, v)
+		}
+	}
+	switch pnoiMode {
+	case 0:
+		for _, v := range views {
+			v.pnoi = true
+		}
+	case 1:
+		v := views[r.Intn(len(views))]
+		if _, err := v.db.WithPanicOnNoIndex(); err != nil {
+			return nil, err
+		}
+		v.pnoi = true
+	}
+	for _, v := range views {
+		if v.pnoi {
+			v.desc += "+PanicOnNoIndex"
+		}
+	}
+	return views, nil
+}
+
+// through sends the call through view v: a filter that goes through a limited
+// handle carries the limit (the same Go values).
+func (c *qcall) through(vi int, v *view) {
+	c.v, c.view = vi, v
+	if len(v.limit) == 0 {
+		return
+	}
+	f, reps := sqlgen.Filter{}, map[string]rep{}
+	for k, x := range c.filter {
+		f[k] = x
+	}
+	for k, x := range c.reps {
+		reps[k] = x
+	}
+	for k, x := range v.limit {
+		f[k] = x
+		reps[k] = rep{val: x, name: "int64"}
+	}
+	c.filter, c.reps = f, reps
+}
+
+// ---- were calls combined? ----
+
+// The statement says calls "are combined into fewer SELECT statements". Whether
+// a given set of concurrent calls is combined depends on the batcher's timers,
+// so a single round proves nothing; but a class of calls (by operation, table,
+// handle configuration, protocol) whose members never share a SELECT in many
+// opportunities, while the other calls of the same process do, is not batched.
+// An opportunity is a group of >= 2 calls of one round on the same engine and
+// table that are eligible (nil options, no transaction); it is observed
+// combined when the driver saw fewer SELECTs on that table than the group has
+// calls (after subtracting the one SELECT of each ineligible call).
+var combineClasses = []string{
+	"any", "table:items", "table:labels", "op:Query", "op:QueryRow", "op:mixed",
+	"handle:base", "handle:shard", "handle:dyn-strict", "handle:dyn-audit", "handle:shard+dyn-audit",
+	"handle:limited", "handle:derived", "handle:mixed", "handle:panic-on-no-index",
+	"protocol:text", "protocol:binary", "engines:1", "engines:2",
+}
+
+const combineMinOpportunities = 20
+
+func groupClasses(g []*qcall, nHandles int, proto string) []string {
+	out := []string{"any", "table:" + g[0].table, "protocol:" + proto, fmt.Sprintf("engines:%d", nHandles)}
+	sameOp, sameView, limited, derived, pnoi := true, true, true, true, true
+	for _, c := range g {
+		sameOp = sameOp && c.row == g[0].row
+		sameView = sameView && c.v == g[0].v
+		limited = limited && len(c.view.limit) > 0
+		derived = derived && c.v != 0
+		pnoi = pnoi && c.view.pnoi
+	}
+	switch {
+	case !sameOp:
+		out = append(out, "op:mixed")
+	case g[0].row:
+		out = append(out, "op:QueryRow")
+	default:
+		out = append(out, "op:Query")
+	}
+	if sameView {
+		out = append(out, "handle:"+g[0].view.kind)
+	} else {
+		out = append(out, "handle:mixed")
+	}
+	if limited {
+		out = append(out, "handle:limited")
+	}
+	if derived {
+		out = append(out, "handle:derived")
+	}
+	if pnoi {
+		out = append(out, "handle:panic-on-no-index")
+	}
+	return out
+}
+
+// first opportunity of each class that was not combined (for the witness)
+var (
+	notCombinedMu     sync.Mutex
+	notCombinedSample = map[string]map[string]interface{}{}
+)
+
+func combineVerdicts(run *vlib.Run) {
+	anyOpp, anyObs := run.Counter("combine_opportunity:any"), run.Counter("combine_observed:any")
+	for _, cl := range combineClasses {
+		opp, obs := run.Counter("combine_opportunity:"+cl), run.Counter("combine_observed:"+cl)
+		if cl == "any" || opp < combineMinOpportunities || obs > 0 {
+			continue
+		}
+		// control: the opportunities outside the class
+		restOpp, restObs := anyOpp-opp, anyObs
+		if restOpp < combineMinOpportunities || restObs*2 < restOpp {
+			run.Inconclusive(fmt.Sprintf("calls of class %s were never combined in %d opportunities, but the other calls were combined in only %d of %d: no verdict", cl, opp, restObs, restOpp))
+			continue
+		}
+		notCombinedMu.Lock()
+		sample := notCombinedSample[cl]
+		notCombinedMu.Unlock()
+		run.Violation(-1, "", map[string]interface{}{
+			"what": fmt.Sprintf("with batching enabled, concurrent eligible calls (nil options, no transaction, same table) of class %q were never combined into fewer SELECT statements: 0 of %d opportunities, while the other concurrent calls of this run shared a SELECT in %d of %d opportunities",
+				cl, opp, restObs, restOpp),
+			"class": cl, "opportunities": opp, "combined": obs, "other_opportunities": restOpp, "other_combined": restObs,
+			"example_round": sample,
+		})
+	}
+}
+
 type qcall struct {
-	h int // index of the DB handle (engine) the call goes to
+	h int // index of the engine the call goes to
+	// v: index of the view (handle configuration) of that engine it goes through
+	v    int
+	view *view
 	// tx: the caller's context carries the round's open transaction (handle 0)
 	tx bool
 	// optKind names the shape of the call's non-nil SelectOptions ("" = nil
@@ -244,7 +443,11 @@ func (c *qcall) describe() string {
 	if c.tx {
 		extra += " [in tx]"
 	}
-	return fmt.Sprintf("db%d.%s(%s, %s%s)", c.h, op, c.table, f, extra)
+	via := ""
+	if c.view != nil && (c.v != 0 || c.view.pnoi) {
+		via = "[" + c.view.desc + "]"
+	}
+	return fmt.Sprintf("db%d%s.%s(%s, %s%s)", c.h, via, op, c.table, f, extra)
 }
 
 func show(v interface{}) string {
@@ -283,7 +486,14 @@ func (c *qcall) shape() string {
 	if c.tx {
 		op += "tx"
 	}
-	return op + ":" + c.table + "{" + strings.Join(cols, ",") + "}" + c.optKind
+	via := ""
+	if c.view != nil && (c.view.kind != "base" || c.view.pnoi) {
+		via = "@" + c.view.kind
+		if c.view.pnoi {
+			via += "!"
+		}
+	}
+	return op + ":" + c.table + "{" + strings.Join(cols, ",") + "}" + c.optKind + via
 }
 
 // String domains contain separator-bearing values (commas, spaces, values that
@@ -679,6 +889,9 @@ func classify(c *qcall, all map[string]interface{}, got []string, gotClass strin
 func runRound(run *vlib.Run, i int) {
 	fmt.Println("CASE", i)
 	r := run.Rand("round", i)
+	// handle configurations and which call goes through which handle come from
+	// a stream of their own
+	r2 := run.Rand("handles", i)
 	schema := newSchema()
 	bg := context.Background()
 	proto := "text"
@@ -695,6 +908,7 @@ func runRound(run *vlib.Run, i int) {
 		db     *sqlgen.DB
 		items  []*Item
 		labels []*Label
+		views  []*view
 	}
 	nHandles := 1
 	if r.Intn(4) == 0 {
@@ -737,9 +951,34 @@ func runRound(run *vlib.Run, i int) {
 			run.Broken(fmt.Sprintf("case %d: seeding labels: %v", i, err))
 			return
 		}
+		// the handles callers use: the NewDB handle and, in a third of the rounds,
+		// 1-3 handles derived from it (shard limit, dynamic limit, both), with
+		// WithPanicOnNoIndex on all / one / none of them
+		var err error
+		if hd.views, err = buildViews(r2, hd.db); err != nil {
+			run.Broken(fmt.Sprintf("case %d: deriving handles: %v", i, err))
+			return
+		}
 		handles = append(handles, hd)
 	}
 	items, labels := handles[0].items, handles[0].labels
+	// focus rounds: every call of an engine goes through one derived handle
+	focus := make([]int, nHandles)
+	for k, hd := range handles {
+		focus[k] = -1
+		if len(hd.views) > 1 {
+			run.Count("rounds_with_derived_handles", 1)
+			if r2.Intn(3) == 0 {
+				focus[k] = 1 + r2.Intn(len(hd.views)-1)
+			}
+		}
+		for _, v := range hd.views {
+			if v.pnoi {
+				run.Count("rounds_with_panic_on_no_index_handle", 1)
+				break
+			}
+		}
+	}
 	if nHandles == 2 {
 		run.Count("rounds_two_handles", 1)
 	}
@@ -764,6 +1003,11 @@ func runRound(run *vlib.Run, i int) {
 		if txRound && c.h == 0 && r.Intn(2) == 0 {
 			c.tx = true
 		}
+		vi := r2.Intn(len(handles[c.h].views))
+		if focus[c.h] >= 0 {
+			vi = focus[c.h]
+		}
+		c.through(vi, handles[c.h].views[vi])
 		calls = append(calls, c)
 	}
 
@@ -781,6 +1025,8 @@ func runRound(run *vlib.Run, i int) {
 		}
 		a.h = r.Intn(nHandles)
 		b.h = a.h
+		a.through(0, handles[a.h].views[0])
+		b.through(0, handles[a.h].views[0])
 		calls = append(calls, a, b)
 		r.Shuffle(len(calls), func(x, y int) { calls[x], calls[y] = calls[y], calls[x] })
 		run.Count("rounds_with_colliding_tuple_pair", 1)
@@ -839,11 +1085,11 @@ func runRound(run *vlib.Run, i int) {
 		return bg
 	}
 	for _, c := range calls {
-		q := &qcall{table: c.table, filter: c.filter, h: c.h, tx: c.tx}
+		q := &qcall{table: c.table, filter: c.filter, h: c.h, tx: c.tx, v: c.v, view: c.view}
 		if c.limit == 0 {
 			q.opts, q.optKind = c.opts, c.optKind // same options; a Limit is judged by count (no ORDER BY)
 		}
-		c.refKeys, c.refRows, c.refErr = runQuery(refCtx(c), handles[c.h].db, q)
+		c.refKeys, c.refRows, c.refErr = runQuery(refCtx(c), c.view.db, q)
 		if c.refErr != nil {
 			run.Broken(fmt.Sprintf("case %d: unbatched %s failed: %v", i, q.describe(), c.refErr))
 			return
@@ -862,7 +1108,7 @@ func runRound(run *vlib.Run, i int) {
 		if c.limit > 0 {
 			continue
 		}
-		keys, _, err := runQuery(refCtx(c), handles[c.h].db, c)
+		keys, _, err := runQuery(refCtx(c), c.view.db, c)
 		own := rowClass(keys, err)
 		if own == "error" {
 			own = "many"
@@ -917,13 +1163,18 @@ func runRound(run *vlib.Run, i int) {
 			if c.tx {
 				ctx = txb
 			}
-			c.gotKeys, c.gotRows, c.gotErr = runQuery(ctx, handles[c.h].db, c)
+			c.gotKeys, c.gotRows, c.gotErr = runQuery(ctx, c.view.db, c)
 		}(c)
 	}
 	wg.Wait()
 	selects := 0
 	var stmts []string
 	faultFired := false
+	type gkey struct {
+		h     int
+		table string
+	}
+	selBy := map[gkey]int{}
 	for hi, hd := range handles {
 		hd.eng.SetHooks(fakesql.Hooks{})
 		if b := hd.eng.Broken(); len(b) > 0 {
@@ -933,6 +1184,7 @@ func runRound(run *vlib.Run, i int) {
 		for _, st := range hd.eng.LogSince(marks[hi]) {
 			if st.Kind == fakesql.SSelect {
 				selects++
+				selBy[gkey{hi, st.Table}]++
 				if faultRound && st.RowsReturned > faultAfter {
 					faultFired = true
 				}
@@ -941,6 +1193,43 @@ func runRound(run *vlib.Run, i int) {
 		}
 	}
 	combined := selects < len(calls)
+	if !faultRound {
+		groups, inel := map[gkey][]*qcall{}, map[gkey]int{}
+		for _, c := range calls {
+			k := gkey{c.h, c.table}
+			if c.opts == nil && !c.tx {
+				groups[k] = append(groups[k], c)
+			} else {
+				inel[k]++ // sent on its own: exactly one SELECT
+			}
+		}
+		for k, g := range groups {
+			if len(g) < 2 {
+				continue
+			}
+			own := selBy[k] - inel[k]
+			if own < 1 || own > len(g) {
+				run.Count("combine_accounting_skipped", 1)
+				continue
+			}
+			for _, cl := range groupClasses(g, nHandles, proto) {
+				run.Count("combine_opportunity:"+cl, 1)
+				if own < len(g) {
+					run.Count("combine_observed:"+cl, 1)
+					continue
+				}
+				notCombinedMu.Lock()
+				if notCombinedSample[cl] == nil {
+					var ds []string
+					for _, c := range g {
+						ds = append(ds, c.describe())
+					}
+					notCombinedSample[cl] = map[string]interface{}{"case": i, "eligible_calls_on_" + k.table: ds, "selects_on_table_for_them": own, "batched_statements": stmts}
+				}
+				notCombinedMu.Unlock()
+			}
+		}
+	}
 	if combined {
 		run.Count("rounds_combined", 1)
 	} else {
@@ -967,6 +1256,10 @@ func runRound(run *vlib.Run, i int) {
 		}
 		if len(c.filter) == 0 {
 			run.Count("filter_empty", 1)
+		}
+		run.Count("call_through_handle:"+c.view.kind, 1)
+		if c.view.pnoi {
+			run.Count("call_through_handle:panic-on-no-index", 1)
 		}
 	}
 	sort.Strings(shapes)
@@ -1185,13 +1478,20 @@ func TestCheck(t *testing.T) {
 	run.Rule("round = fresh fake-SQL engine (text or binary protocol, insertion or shuffled row order) with table items (4-17 rows; int64/int32/named-int/string/named-string/*int64/*string/[]byte/bool/time/implicitnull columns, small value domains, NULLs) and labels (string key); " +
 		"2-8 calls Query/QueryRow with filters over 0-3 columns (nil and empty filters, equal filters from different callers, different column sets, two tables) whose values are written as the field type, other int widths, named types, pointers, nil / typed nil pointers, []byte vs string, times in another zone; " +
 		"each call runs alone without batching (reference), then all run concurrently on one batch.WithBatching context; rows compared as sets keyed by primary key plus content, QueryRow by outcome (row / sql.ErrNoRows / more-than-one, the latter recognised through an unbatched Query, not the error text). " +
-		"Evaluation = one round; non-trivial = the statement log shows fewer SELECTs than calls; distinct = multiset of (op, table, column=representation) of the round.")
+		"Handles: callers reach an engine through the NewDB handle or (a third of the rounds) through 1-3 handles derived from it - WithShardLimit(grp=g), WithDynamicLimit (refusing or continuing), both - with WithPanicOnNoIndex on all, one or none of them; sibling handles with different limits and the base handle are used concurrently in one batching context (filters through a limited handle carry its limit), or every call goes through one derived handle. " +
+		"Combination: per class of calls (operation, table, handle configuration, protocol, engines) the groups of >= 2 eligible concurrent calls on one table are counted and how many of them reached the driver as fewer SELECTs than calls; a class with >= 20 such opportunities and none combined, while the other calls of the run were combined in at least half of theirs, violates 'are combined into fewer SELECT statements'. " +
+		"Evaluation = one round; non-trivial = the statement log shows fewer SELECTs than calls; distinct = multiset of (op, table, column=representation, handle configuration) of the round.")
 	run.Assume("fakesql evaluates WHERE like MySQL for the argument forms sqlgen sends (three-valued logic, numeric comparison of ints, bytewise strings, DATETIME(6) in UTC); unbatched thunder against it is the reference")
 	run.Assume("fakesql compares strings bytewise (binary collation, no PAD SPACE) and serialises writers with one engine-wide lock (READ COMMITTED for plain SELECTs)")
 	run.Assume("filters are restricted to values the unbatched path accepts (no stringly numbers, no sub-microsecond times)")
+	run.Assume("fakesql answers EXPLAIN SELECT with a plan that names the primary key, so WithPanicOnNoIndex never panics; EXPLAIN statements are not counted as SELECTs")
+	run.Assume("whether concurrent calls share a SELECT depends on the batcher's timers: no verdict on a single round, only on a class of calls that is never combined in >= 20 opportunities of a run whose other calls are")
 	pinned(run)
 	n := run.N(3000, 600000)
 	run.Each(n, 8, func(i int) { runRound(run, i) })
+	if _, only := run.Only(); !only {
+		combineVerdicts(run)
+	}
 	if _, only := run.Only(); !only && run.Counter("rounds_combined") == 0 {
 		run.Inconclusive("no round combined calls into fewer SELECTs: batching was never observed")
 		run.Broken("all rounds vacuous")
